@@ -11,7 +11,6 @@ import collections
 import itertools
 import logging
 import os
-import sys
 
 from vlib.models import reraise as model
 
@@ -29,13 +28,15 @@ ANCHORS = [('oslo_utils.excutils', 'save_and_reraise_exception.capture'),
 RULE = ('handler programs: bodies of <= 2 ops over 9 atoms {noop, inner raise-and-catch, raise new, '
         'reraise off, reraise on, force_reraise caught, force_reraise escaping, capture() in an inner '
         'handler, capture() directly} + nested helper (flag, mode, body); depth = number of nested '
-        'helpers including the outermost. Enumerated: every body to depth 2 (quick, nest mode plain; '
-        'thorough also modes handled/guarded), every single-spine body (<= 1 nested helper per body) '
-        'to depth 3 (thorough: depth 4), each x initial flag x 5 exception classes; plus seeded random '
-        'unrestricted bodies (<= 3 ops, all nest modes) of depth 3 and 4. exception_filter: 4 ways to '
-        'make the filter x 7 usage forms x 11 predicates x 7 exception specs; remove_path_on_error: '
+        'helpers including the outermost. Enumerated: every body to depth 2 with nest mode plain (quick; '
+        'thorough also modes handled/guarded) and, thorough only, every single-spine body (<= 1 nested '
+        'helper per body) of depth 3; each x initial flag x exception classes. Sampled: single-spine '
+        'depth 3 (quick, every 61st) and depth 4 (thorough, every 13th), seeded random unrestricted '
+        'bodies (<= 3 ops, all nest modes) of depth 2, 3 and 4. exception_filter: 4 ways to '
+        'make the filter x 7 usage forms x 11 predicates x 9 exception specs; remove_path_on_error: '
         'path state x body x remove callable x class; raise_with_cause: active x explicit cause x '
-        'target class. non-trivial = non-empty body / an exception is involved; distinct by the whole case')
+        'target class x handler shape. non-trivial = non-empty body / an exception is involved; distinct '
+        'by the whole case')
 REQUIRED_CLAUSES = ['sre-outcome', 'sre-identity', 'sre-traceback-tail', 'sre-log-count',
                     'sre-log-mentions-original', 'sre-k9-regime',
                     'filter-suppressed', 'filter-same-object', 'filter-traceback-tail',
@@ -267,7 +268,7 @@ def _run_body(SRE, st, ctxt, body):
 
 
 def _execute(SRE, st, cls, reraise, body):
-    exc, _site_ = make_exc(cls)
+    exc, _unused = make_exc(cls)
     st.orig = exc
     try:
         try:
@@ -933,13 +934,15 @@ def _has_mode(body):
     return False
 
 
-LEVEL_TEXT = ('Exploration with an executable model: every handler program up to nesting depth 2 (and every '
-              'single-spine program to depth 3; thorough: depth 4) is run against the real helper for both flag '
-              'values and five exception classes; deeper unrestricted programs are sampled. exception_filter, '
+LEVEL_TEXT = ('Exploration with an executable model: every handler program up to nesting depth 2 (thorough: in three '
+              'nesting modes, plus every single-spine program of depth 3) is run against the real helper for both '
+              'flag values and the exception classes; deeper and unrestricted programs are sampled. exception_filter, '
               'remove_path_on_error and raise_with_cause are driven over full grids of their usage forms.')
 LEVEL_NOTE = ('Trusted: the interpreter in checks/c09.py and the model in vlib/models/reraise.py (about 60 lines, '
-              'written from the statement). Depth-3 programs with two nested helpers in one body and all programs '
-              'of depth 4 with bodies of 3 ops are sampled, not enumerated. Listed finding K9 excuses only the '
-              'identity of an object produced by a second force_reraise on one capture. Log content is asserted '
-              'only while no force_reraise has consumed the capture.')
+              'written from the statement). Unrestricted depth-3 programs (two nested helpers in one body: 1.3e9 '
+              'bodies) and all depth-4 programs are sampled, not enumerated; quick crosses depth-2 programs with '
+              'three of the five classes. Listed finding K9 excuses only the identity of an object produced by a '
+              'second force_reraise on one capture. Log content is asserted only while no force_reraise has '
+              'consumed the capture. remove_path_on_error with non-Exception BaseExceptions and the way it reports '
+              'the original when remove() itself raises are observed, not asserted.')
 TECHNIQUE = 'history monitor: executable model of the helper over generated handler programs (genuine try/except/with)'
